@@ -156,7 +156,9 @@ Definition check_obs (D : desc) (o : c18obs) : bool :=
              match find_msg D full with
              | None => false
              | Some m => let '(st1, o) := cache_schema D (size D) st m in
-                         N.eqb class (cls o) && go st1 rest
+                         (* a Go panic unwinds through Schema without the roll-back: what the cache holds
+                            afterwards is not modelled, the comparison stops there *)
+                         N.eqb class (cls o) && (if N.eqb (cls o) 2 then true else go st1 rest)
              end
          end) [] l
   end.
